@@ -36,6 +36,8 @@ type Ev struct {
 	Pool int
 	// CallSeq (next, left): the sequence stamp when the call started (Seq is taken when it returned)
 	CallSeq uint64
+	// AfterClose (shoot-in): the gun had been closed before this shot
+	AfterClose bool
 	// CtxDone (shoot-in, shoot-out): the context the gun was bound with (GunDeps.Ctx) was already done
 	CtxDone bool
 }
@@ -188,7 +190,7 @@ func (g *Gun) Shoot(ammo core.Ammo) {
 	g.inShoot = true
 	k := g.shots
 	g.shots++
-	g.f.Log.Add(Ev{Kind: "shoot-in", Inst: g.inst, Ammo: ammo, N: k, Ptr: g, CtxDone: g.deps.Ctx != nil && g.deps.Ctx.Err() != nil})
+	g.f.Log.Add(Ev{Kind: "shoot-in", Inst: g.inst, Ammo: ammo, N: k, Ptr: g, CtxDone: g.deps.Ctx != nil && g.deps.Ctx.Err() != nil, AfterClose: g.closed > 0})
 	if g.f.Script.PanicInst == g.inst && g.f.Script.PanicShot == k {
 		g.inShoot = false
 		g.f.Log.Add(Ev{Kind: "shoot-panic", Inst: g.inst, N: k, Err: fmt.Sprintf("injected shot panic inst=%d shot=%d", g.inst, k)})
